@@ -4,3 +4,5 @@ import TaffyVerif.Model.Geometry
 import TaffyVerif.Model.Cache
 import TaffyVerif.Model.Style
 import TaffyVerif.Drv.StyleParse
+import TaffyVerif.Model.Prog
+import TaffyVerif.Drv.TreeParse
